@@ -59,6 +59,22 @@ MUTANTS = {
     "c04_no_float_trap": ("rp2.rp2_decimal", "getcontext().traps[FloatOperation] = True", "getcontext().traps[FloatOperation] = False", ["C04"]),
     "c04_out_fee_in_proceeds": ("rp2.out_transaction", "        return self.fiat_out_no_fee\n\n    @property\n    def crypto_deduction", "        return self.fiat_out_with_fee\n\n    @property\n    def crypto_deduction", ["C04"]),
     "c04_supplied_ignored": ("rp2.in_transaction", "        if fiat_in_with_fee is None:\n            self.__fiat_in_with_fee = self.__fiat_in_no_fee + self.__fiat_fee", "        if fiat_in_with_fee is None or True:\n            self.__fiat_in_with_fee = self.__fiat_in_no_fee + self.__fiat_fee", ["C04"]),
+    "c13_gain_col": ("rp2.plugin.report.rp2_full_report", "self._fill_cell(sheet, row_index, 3, gain_loss.fiat_gain, visual_style=transparent_style, data_style=\"fiat\")", "self._fill_cell(sheet, row_index, 3, gain_loss.fiat_cost_basis, visual_style=transparent_style, data_style=\"fiat\")", ["C13"]),
+    "c13_total_by_exchange": ("rp2.plugin.report.rp2_full_report", "            value = totals.setdefault(balance.holder, _ZERO)\n            value += balance.final_balance\n            totals[balance.holder] = value", "            value = totals.setdefault(balance.holder, _ZERO)\n            value += balance.acquired_balance\n            totals[balance.holder] = value", ["C13"]),
+    "c13_d2_regression": ("rp2.plugin.report.rp2_full_report", "        if _AssetAndYear(asset, year) not in self.__tax_sheet_year_2_row:", "        if False:", ["C13", "C16"]),
+    "c13_d12_regression": ("rp2.plugin.report.abstract_ods_generator", "next(iter(years_2_accounting_method_names.values())) if len(years_2_accounting_method_names) == 1", "years_2_accounting_method_names[MIN_DATE.year] if len(years_2_accounting_method_names) == 1", ["C13", "C16"]),
+    "c19_row_plus2": ("rp2.plugin.report.rp2_full_report", "            self.__in_out_sheet_transaction_2_row[transaction] = row_index + 1\n\n            previous_transaction = transaction", "            self.__in_out_sheet_transaction_2_row[transaction] = row_index + 2\n\n            previous_transaction = transaction", ["C19"]),
+    "c19_d4_regression": ("rp2.plugin.report.rp2_full_report", "        self.__in_out_sheet_transaction_2_row = {}\n        transaction_sheet_name", "        transaction_sheet_name", ["C19"]),
+    "c14_gift_sheet": ("rp2.plugin.report.us.tax_report_us", "    SheetNames.GIFTS.value: (TransactionType.GIFT,),", "    SheetNames.GIFTS.value: (),\n", ["C14"]),
+    "c14_d6_regression": ("rp2.plugin.report.ie.tax_report_ie", "        TransactionType.FEE,\n        TransactionType.LOST,\n", "        TransactionType.FEE,\n", ["C14"]),
+    "c14_row_not_advanced": ("rp2.plugin.report.us.tax_report_us", "            row_indexes[sheet.name] = row_index + 1", "            row_indexes[sheet.name] = row_index + (1 if asset != \"B2\" else 0)", ["C14"]),
+    "c15_holder_cost": ("rp2.plugin.report.open_positions", "holder_cost_basis: RP2Decimal = holder_crypto_balance * unit_cost_basis", "holder_cost_basis: RP2Decimal = holder_crypto_balance * asset_cost_basis", ["C15"]),
+    "c15_zero_balance_listed": ("rp2.plugin.report.open_positions", "                if balance_set.final_balance > ZERO:", "                if balance_set.final_balance >= ZERO:", ["C15"]),
+    "c15_cost_no_fee": ("rp2.plugin.report.open_positions", "transaction_cost_basis: RP2Decimal = in_transaction.fiat_in_with_fee * (RP2Decimal(\"1\") - sold_percent)", "transaction_cost_basis: RP2Decimal = in_transaction.fiat_in_no_fee * (RP2Decimal(\"1\") - sold_percent)", ["C15"]),
+    "c17_row_tiebreak": ("rp2.abstract_entry_set", "    return entry.timestamp\n", "    return (entry.timestamp.date(), -entry.row)\n", ["C17"]),
+    "c20_d5_regression": ("rp2.plugin.report.jp.tax_report_jp", "for year, transaction_set in sorted(years_2_transaction_sets.items()):", "for year, transaction_set in years_2_transaction_sets.items():", ["C20"]),
+    "c20_day_month": ("rp2.plugin.report.jp.tax_report_jp", "            transaction_month=transaction.timestamp.month,\n            transaction_day=transaction.timestamp.day,\n            transaction_client=transaction.exchange,\n            sales_crypto_amount=transaction.crypto_out_with_fee,", "            transaction_month=transaction.timestamp.day,\n            transaction_day=transaction.timestamp.day,\n            transaction_client=transaction.exchange,\n            sales_crypto_amount=transaction.crypto_out_with_fee,", ["C20"]),
+    "c20_summary_sheet_name": ("rp2.plugin.report.jp.tax_report_jp", "f\"='{self.get_tax_sheet_name(asset, year)}'.G{row_index+10}\"", "f\"='{asset}_{year}'.G{row_index+10}\"", ["C20"]),
 }
 
 
